@@ -5,7 +5,7 @@ Import ListNotations.
 Local Open Scope Z_scope.
 
 (* the zix status codes the B-tree can return (names as in zix/status.h) *)
-Inductive status := SUCCESS | NO_MEM | NOT_FOUND | EXISTS | REACHED_END | OUT_OF_FUEL.
+Inductive status := SUCCESS | NO_MEM | NOT_FOUND | EXISTS | REACHED_END | OVERFLOW | OUT_OF_FUEL.
 
 Section Spec.
   Variable elt : Type.
